@@ -8,7 +8,7 @@ CodeSets = {{14}}
 BufLimits = {1000}
 ThrMaxs = {0}
 Boffs = {1, 2}
-PBSet = {"none", "p7"}
+PBSet = {"none", "p0", "p7"}
 Trigs = {"open", "late"}
 FailCodes = {14}
 INIT Init
